@@ -540,7 +540,12 @@ func c18Explore(hd *ssa.Function) (seqs []string, trunc bool) {
 	return ConcPaths(hd, ConcCfg{
 		// the level map stays a call: the question is whether it is applied, not what it yields
 		Inline: func(h *ssa.Function) bool {
-			return !(FNm(h) == "convertSlogLevel" && h.Pkg != nil && h.Pkg.Pkg.Path() == SlogPath)
+			if FNm(h) == "convertSlogLevel" && h.Pkg != nil && h.Pkg.Pkg.Path() == SlogPath {
+				return false
+			}
+			// a helper that only arranges fields (no question to the core, no write of a checked entry anywhere below
+			// it) stays one opaque call: its loops multiply the paths without telling anything about the protocol
+			return c18TalksToCore(h, 0)
 		},
 		Event: func(in ssa.Instruction, st *ConcState) string {
 			switch x := in.(type) {
@@ -1061,11 +1066,42 @@ func c18EmitProtocol(c *Ctx, rule string) {
 												if b, ok := c18Binding(fv).(*ssa.Alloc); ok {
 													if sv := singleStoreLoose(b); sv != nil {
 														d = Desc(sv)
+													} else if b.Referrers() != nil {
+														// one state value instead of a flag: the local starts as the pending groups and is
+														// set to nil once they are emitted - every store is the groups or nil
+														allG, nSt := true, 0
+														var cells []ssa.Value
+														cells = append(cells, b)
+														for _, r := range *b.Referrers() {
+															if mk, isMk := r.(*ssa.MakeClosure); isMk {
+																for bi, bv := range mk.Bindings {
+																	if lf, isF := mk.Fn.(*ssa.Function); isF && bv == ssa.Value(b) && bi < len(lf.FreeVars) {
+																		cells = append(cells, lf.FreeVars[bi])
+																	}
+																}
+															}
+														}
+														for _, cell := range cells {
+															if cell.Referrers() == nil {
+																continue
+															}
+															for _, r := range *cell.Referrers() {
+																if st, isSt := r.(*ssa.Store); isSt && st.Addr == cell {
+																	nSt++
+																	if !c18GroupsOrNil(st.Val, 0) {
+																		allG = false
+																	}
+																}
+															}
+														}
+														if allG && nSt > 0 {
+															d = "h." + slogGroups
+														}
 													}
 												}
 											}
 										}
-										if !strings.HasSuffix(d, "."+slogGroups) {
+										if !strings.HasSuffix(d, "."+slogGroups) && !c18GroupsOrNil(a, 0) {
 											all = false
 										}
 									}
@@ -1635,4 +1671,46 @@ func c18ListVerdict(ev []string, isWithAttrs bool, notPending bool) (why string,
 		return "Handle must not clear groups", true
 	}
 	return "", true
+}
+
+// c18TalksToCore: h, or a function of the module it calls, asks a core (Check) or writes a checked entry.
+func c18TalksToCore(h *ssa.Function, depth int) bool {
+	if h == nil || depth > 4 {
+		return false
+	}
+	for _, cl := range CallsDeep(h) {
+		if c, ok := cl.(*ssa.Call); ok && IsCallTo(c, "(go.uber.org/zap/zapcore.Core).Check", "(*go.uber.org/zap/zapcore.CheckedEntry).Write") {
+			return true
+		}
+		if sc := StaticCallee(cl); sc != nil && sc != h && curProgRoot(sc) && c18TalksToCore(sc, depth+1) {
+			return true
+		}
+	}
+	return false
+}
+
+// c18GroupsOrNil: v is the handler's pending groups, nil, or a local that only ever holds one of the two (one state
+// value instead of a flag: `pending := h.groups … pending = nil`).
+func c18GroupsOrNil(v ssa.Value, depth int) bool {
+	return c18GroupsOrNilSeen(v, map[*ssa.Phi]bool{})
+}
+
+func c18GroupsOrNilSeen(v ssa.Value, seen map[*ssa.Phi]bool) bool {
+	v = Strip(v)
+	if IsNilConst(v) {
+		return true
+	}
+	if x, isPhi := v.(*ssa.Phi); isPhi {
+		if seen[x] {
+			return true
+		}
+		seen[x] = true
+		for _, e := range x.Edges {
+			if !c18GroupsOrNilSeen(e, seen) {
+				return false
+			}
+		}
+		return len(x.Edges) > 0
+	}
+	return strings.HasSuffix(Desc(v), "."+slogGroups)
 }
